@@ -5,7 +5,8 @@ CONSTANTS
   Coords <- Coords7
   DEN = 4
   MaxNum = 4
-  Base <- BaseEqs3
+  Base <- TheBase
+  Which = "Eqs3"
   Mults <- QMults
   Adds <- QAdds
   Exps <- QExps
